@@ -206,6 +206,26 @@ def run(prog: Program, rep: Report, tier: str):
     # loop differently - the universe floor is the number of constructors analysed, above)
     rep.floor("'p = p or D' defaults in selection constructors", n_or, 0)
     rep.floor("'while v > 0' loops in selection constructors", n_loops, 0)
+    # ---- rounding up a quotient ----------------------------------------------------------------------------------------
+    rep.rule("G6.ceil-of-floor", "where a wrapper rounds a quotient up (ceil(a / b): the number of whole copies / samples that "
+             "reaches a requested size) the quotient is a true division: ceil(a // b) rounds down first and the ceil is a no-op - "
+             "the request is missed by up to one unit whenever b does not divide a")
+    n_ceil = 0
+    for rel in FILES:
+        m_ = prog.module(rel, required=False)
+        if m_ is None:
+            continue
+        for f_ in prog.raw.all_functions([prog.raw.module(rel)]):
+            for y in ast.walk(f_.node):
+                if isinstance(y, ast.Call) and ((isinstance(y.func, ast.Attribute) and y.func.attr == "ceil") or (
+                        isinstance(y.func, ast.Name) and y.func.id == "ceil")) and len(y.args) == 1:
+                    n_ceil += 1
+                    a0 = y.args[0]
+                    floor_first = isinstance(a0, ast.BinOp) and isinstance(a0.op, ast.FloorDiv)
+                    rep.decide(not floor_first, "G6.ceil-of-floor", f_, f"ceil:{' '.join(ast.unparse(a0).split())[:40]}",
+                               "the quotient is rounded up", f"ceil({ast.unparse(a0)[:60]}) at line {y.lineno}: the floor division "
+                               f"already dropped the remainder, nothing is rounded up - the requested size is not reached when the "
+                               f"division is not exact", line=y.lineno, clause="C03.3", nontrivial=False)
     names.check(prog, rep, FILES, clause="C03.5", floor=12)
 
 
